@@ -2669,6 +2669,10 @@ class PyCdlib:
 
         if self.eltorito_boot_catalog is not None:
             if any(id(found_file_entry) == id(rec) for rec in self.eltorito_boot_catalog.dirrecords):
+                if self._needs_reshuffle:
+                    # The catalog holds the locations of the boot files,
+                    # which have to be up to date.
+                    self._reshuffle_extents()
                 recdata = self.eltorito_boot_catalog.record()
                 outfp.write(recdata)
                 utils.zero_pad(outfp, len(recdata), self.logical_block_size)
@@ -2752,7 +2756,11 @@ class PyCdlib:
             for rec in self.eltorito_boot_catalog.dirrecords:
                 if isinstance(rec, udfmod.UDFFileEntry):
                     continue
-                if rec.file_ident == found_record.file_ident and rec.parent == found_record.parent:
+                if rec is found_record:
+                    if self._needs_reshuffle:
+                        # The catalog holds the locations of the boot files,
+                        # which have to be up to date.
+                        self._reshuffle_extents()
                     recdata = self.eltorito_boot_catalog.record()
                     outfp.write(recdata)
                     utils.zero_pad(outfp, len(recdata), self.logical_block_size)
